@@ -64,5 +64,6 @@ Definition check_step (k : kind) (st : mstate * list Z) (x : stepx) : (mstate * 
   | _ => (st, kind_of (shape_ok m x) true)
   end.
 
-Definition check_case (c : case) : nat := scan (check_step (c_kind c)) (m_init (c_kind c), []) (c_steps c) 0.
+(* scan_k2 (C07.Check): a kind-1 step does not stop the search for a later kind-2 step *)
+Definition check_case (c : case) : nat := scan_k2 (check_step (c_kind c)) (m_init (c_kind c), []) (c_steps c) 0 0.
 Definition mismatches (cs : list case) : list (nat * nat) := find_bad check_case cs.
